@@ -728,16 +728,21 @@ class SmtLibParser(object):
         newvals = {}
         current = "("
         self.consume_opening(tokens, "expression")
-        while current != ")":
-            if current != "(":
-                raise PysmtSyntaxError("Expected '(' in let binding",
-                                       tokens.pos_info)
-            vname = self.parse_atom(tokens, "expression")
-            expr = cast(Union[str, FNode], assert_not_none(self.get_expression(tokens)))
-            newvals[vname] = expr
-            self.cache.bind(vname, expr)
-            self.consume_closing(tokens, "expression")
-            current = tokens.consume()
+        try:
+            while current != ")":
+                if current != "(":
+                    raise PysmtSyntaxError("Expected '(' in let binding",
+                                           tokens.pos_info)
+                vname = self.parse_atom(tokens, "expression")
+                expr = cast(Union[str, FNode], assert_not_none(self.get_expression(tokens)))
+                newvals[vname] = expr
+                self.cache.bind(vname, expr)
+                self.consume_closing(tokens, "expression")
+                current = tokens.consume()
+        except Exception:
+            for k in newvals:
+                self.cache.unbind(k)
+            raise
 
         stack[-1].append(self._exit_let)
         stack[-1].append(newvals.keys())
@@ -760,18 +765,23 @@ class SmtLibParser(object):
         self.consume_opening(tokens, "expression")
         current = "("
         self.consume_opening(tokens, "expression")
-        while current != ")":
-            if current != "(":
-                raise PysmtSyntaxError("Expected '(' in let binding", tokens.pos_info)
-            vname = self.parse_atom(tokens, "expression")
-            typename = cast(PySMTType, self.parse_type(tokens, "expression"))
+        try:
+            while current != ")":
+                if current != "(":
+                    raise PysmtSyntaxError("Expected '(' in let binding", tokens.pos_info)
+                vname = self.parse_atom(tokens, "expression")
+                typename = cast(PySMTType, self.parse_type(tokens, "expression"))
 
-            var = self._get_quantified_var(vname, typename)
-            self.cache.bind(vname, var)
-            vrs.append((vname, var))
+                var = self._get_quantified_var(vname, typename)
+                self.cache.bind(vname, var)
+                vrs.append((vname, var))
 
-            self.consume_closing(tokens, "expression")
-            current = tokens.consume()
+                self.consume_closing(tokens, "expression")
+                current = tokens.consume()
+        except Exception:
+            for vname, _ in vrs:
+                self.cache.unbind(vname)
+            raise
 
         quant = None
         if key == 'forall':
@@ -873,7 +883,23 @@ class SmtLibParser(object):
                         return self.atom(tk, mgr)
         except StopIteration:
             # No more data when trying to consume tokens
+            self._leave_scopes(stack)
             return None
+        except Exception:
+            # The names bound for the let-s and quantifiers that were
+            # being parsed must not survive the failure
+            self._leave_scopes(stack)
+            raise
+
+    def _leave_scopes(self, stack: List[Any]):
+        """Unbinds the variables of the let-s and quantifiers in the stack"""
+        for frame in reversed(stack):
+            if len(frame) > 1 and frame[0] == self._exit_let:
+                for k in frame[1]:
+                    self.cache.unbind(k)
+            elif len(frame) > 2 and frame[0] == self._exit_quantifier:
+                for vname, _ in frame[2]:
+                    self.cache.unbind(vname)
 
     def get_script(self, script: TextIO) -> SmtLibScript:
         """
@@ -1408,24 +1434,25 @@ class SmtLibParser(object):
             self.cache.bind(x, v)
             formal.append(v)  # remember the variable
             bindings.append(x)  # remember the name
-        # Parse expression using also parameters
-        ebody: FNode = assert_not_none(self.get_expression(tokens))
-        ebody_type = self.env.stc.get_type(ebody)
-        ebody_vars = self.env.fvo.get_free_variables(ebody)
-        # Promote constant integer expression to real
-        if ebody_type.is_int_type() and rtype.is_real_type() and \
-           len(ebody_vars) == 0:
-            ebody = self.env.formula_manager.ToReal(ebody)
-            ebody_type = rtype
-        # Check that ebody has the right type
-        if ebody_type != rtype:
-            raise PysmtSyntaxError("Typyng error in define-fun command. "
-                                   "The expected type is %s, but the detected "
-                                   "expression type is %s" % (rtype, ebody_type))
-
-        #Discard parameters
-        for x in bindings:
-            self.cache.unbind(x)
+        try:
+            # Parse expression using also parameters
+            ebody: FNode = assert_not_none(self.get_expression(tokens))
+            ebody_type = self.env.stc.get_type(ebody)
+            ebody_vars = self.env.fvo.get_free_variables(ebody)
+            # Promote constant integer expression to real
+            if ebody_type.is_int_type() and rtype.is_real_type() and \
+               len(ebody_vars) == 0:
+                ebody = self.env.formula_manager.ToReal(ebody)
+                ebody_type = rtype
+            # Check that ebody has the right type
+            if ebody_type != rtype:
+                raise PysmtSyntaxError("Typyng error in define-fun command. "
+                                       "The expected type is %s, but the detected "
+                                       "expression type is %s" % (rtype, ebody_type))
+        finally:
+            #Discard parameters (also when the body is rejected)
+            for x in bindings:
+                self.cache.unbind(x)
         # Finish Parsing
         self.consume_closing(tokens, current)
         self.cache.define(var, formal, ebody)
